@@ -1073,6 +1073,10 @@ class Evaluator:
                 if mem and isinstance(mem[1], (ast.Assign, ast.AnnAssign)) and mem[1].value is not None and depth < s.depth_limit:
                     # a class attribute read through the instance; an attribute that is a descriptor object answers through its __get__
                     cv_ = s.ev(mem[1].value, {'__parent__': None}, mem[0], 1)          # a class-level constant: evaluated on its own, not at the caller's depth
+                    if isinstance(cv_, Ref) and cv_.kind == 'func':           # a plain function stored in the class body is a method of its instances
+                        return Closure(cv_.node, {'__parent__': None}, cv_.mod, attr, v, v.clsref[1])
+                    if isinstance(cv_, Closure) and cv_.self_val is None and isinstance(cv_.node, (ast.Lambda, ast.FunctionDef)):
+                        return Closure(cv_.node, cv_.env, cv_.mod, attr, v, v.clsref[1])
                     if isinstance(cv_, Rec) and cv_.clsref:
                         g_ = s.prog.find_member(cv_.clsref[0], cv_.clsref[1], '__get__')
                         if g_ and isinstance(g_[1], ast.FunctionDef):
@@ -1647,6 +1651,11 @@ class Evaluator:
                     return Comp((el_, idx_) if i_ == 0 else (idx_, el_), [(en_, [])], 'list')
         if name == 'dict' and len(args) == 1 and not kw and isinstance(a, Comp) and a.kind in ('list', 'gen') and isinstance(a.elt, (tuple, list)) and len(a.elt) == 2:
             return Comp(tuple(a.elt), a.gens, 'dict')
+        if name == 'next' and 1 <= len(args) <= 2 and not kw and isinstance(a, (list, tuple)):
+            # the first item of a concrete sequence (a generator over concrete items that was unrolled)
+            if a: return a[0]
+            if len(args) == 2: return args[1]
+            if s._try_depth > 0: raise Raised('StopIteration', '')
         if name == 'range' and 1 <= len(args) <= 3 and not kw and all(isinstance(x, Poly) and x.real_const() is not None and x.real_const().denominator == 1 for x in args):
             vals_ = range(*[int(x.real_const()) for x in args])
             if len(vals_) <= 64: return [Poly.const(v_) for v_ in vals_]            # a concrete range is the list of its numbers
@@ -1767,6 +1776,7 @@ class Evaluator:
                 if not parts: return a[0]
                 return parts[0] if len(parts) == 1 and not (isinstance(parts[0], Opq) and parts[0].k[0] == 'rows') else Opq(kind, *parts)
         if name == 'ones': return Poly.const(1)
+        if name == 'full' and len(args) == 2 and isinstance(args[1], (Poly, int, F)) and set(kw) <= {'dtype'}: return as_poly(args[1])       # the constant array, like np.ones(shape)*v
         if name in ('zeros', 'empty', 'zeros_like', 'empty_like', 'ndarray') and args and not isinstance(a, (Cond,)):
             return Opq('np.' + name, *args, *[Opq('kw', k, v) for k, v in sorted(kw.items())])
         if name in ('vectorize', 'array', 'float') and len(args) == 1:
@@ -2018,6 +2028,17 @@ class Evaluator:
                 if isinstance(lr, tuple) and lr and lr[0] == 'return-if':
                     # the loop returns lr[2] as soon as an element passes the test; otherwise what follows the loop happens
                     return s.block([ast.If(test=_TermNode(lr[1]), body=[ast.Return(value=_TermNode(lr[2]))], orelse=[])] + rest, env, mod, depth)
+            elif isinstance(st, ast.ClassDef):
+                # a class statement with decorators of the package (registries): the decorator is applied to the class
+                r_ = s.prog.resolve(mod, st.name)
+                cv_ = s.ref_of(r_) if r_ is not None and r_[0] == 'class' else None
+                if cv_ is not None:
+                    for d_ in reversed(st.decorator_list):
+                        try: dv_ = s.ev(d_, env, mod, depth)
+                        except Exception: dv_ = None
+                        if isinstance(dv_, Closure) or (isinstance(dv_, Ref) and dv_.kind == 'func'):
+                            try: s.apply(dv_, [cv_], {}, mod, depth)
+                            except Raised: pass
             elif isinstance(st, ast.FunctionDef):
                 fv_ = Closure(st, env, mod, st.name)
                 for d_ in reversed(st.decorator_list):
@@ -2513,7 +2534,7 @@ class Evaluator:
         """run the top-level statements of a module once (assignments, decorated definitions, table updates) and return its namespace"""
         env = {'__parent__': None}
         try:
-            s.block([st for st in mod.tree.body if not isinstance(st, (ast.ClassDef, ast.Import, ast.ImportFrom))], env, mod, 1)
+            s.block([st for st in mod.tree.body if not isinstance(st, (ast.Import, ast.ImportFrom)) and not (isinstance(st, ast.ClassDef) and not st.decorator_list)], env, mod, 1)
         except Exception:
             pass
         return env
@@ -2547,6 +2568,10 @@ class Evaluator:
             k = s.ev(t.slice, env, mod, depth) if not isinstance(t.slice, ast.Slice) else None
             if isinstance(base, dict) and isinstance(k, str): base[k] = val
             elif isinstance(base, dict) and isinstance(k, Poly) and k.is_const() and all(not isinstance(x, Opq) for x in base): base[_HK(k)] = val
+            elif isinstance(base, dict) and isinstance(k, Ref) and all(not isinstance(x, Opq) for x in base):
+                # a class / function object as key (a registry keyed by type)
+                old_ = next((x for x in base if isinstance(x, _HK) and same(x.v, k)), None)
+                base[old_ if old_ is not None else _HK(k)] = val
             elif isinstance(base, Poly) and base.as_atom() is not None and isinstance(k, (str, int)) and not isinstance(k, bool):
                 s.stores[(base.as_atom(), ('[]', k))] = val
                 s.mutations.append((ast.unparse(t.value), '__setitem__', [k, val]))
@@ -2662,6 +2687,8 @@ def _match_as_ifs(st):
                 binds.append(ast.Assign(targets=[ast.Name(id=pat.rest, ctx=ast.Store())], value=comp_))
             body_binds[id(pat)] = binds
             return ast.BoolOp(op=ast.And(), values=conds) if len(conds) > 1 else (conds[0] if conds else ast.Constant(value=True))
+        if isinstance(pat, ast.MatchAs) and pat.pattern is None and pat.name is None:
+            return ast.Constant(value=True)         # case _ if guard:
         if isinstance(pat, ast.MatchAs) and pat.pattern is None and pat.name is not None:
             captures.append(pat.name)               # case x [if guard]: always matches, x is the subject
             return ast.Constant(value=True)
